@@ -308,12 +308,28 @@ def gen_str_script(rng, n):
     return ["S", "str", "MASK"] + ops
 
 
+def gen_arena_script(rng, n):
+    """Arena::alloc_oneshot sizes (positive multiples of 8) around the block sizes 2^11.. minus the overheads, resets in between"""
+    ops = []
+    for _ in range(n):
+        c = rng.random()
+        if c < 0.08: ops.append("r0")
+        elif c < 0.12: ops.append("r1")
+        else:
+            ops.append("a%d" % rng.choice([8, 16, 64, 200, 504, 1000, 1984, 2000, 2008, 2016, 2024, 2048, 4040, 4048, 4064, 4096, 8144, 8200,
+                                          16000, 40000, 100000, 8 * rng.randrange(1, 600)]))
+    return ["S", "arena", "MASK"] + ops
+
+
 def gen_jit_script(rng, n, dual):
     ops, live = [], []
     nspans = 0
     for _ in range(n):
         c = rng.random()
-        if live and c < 0.12:
+        if c > 0.96:
+            ops.append("r%d" % rng.choice([0, 0, 1]))      # JitAllocator::reset(soft / hard): every span is gone
+            live = []
+        elif live and c < 0.12:
             i = rng.choice(live)
             n = rng.choice([0, 1, 64, 65, 500, 4096, 70000])
             if n == 0: live.remove(i)
@@ -321,6 +337,8 @@ def gen_jit_script(rng, n, dual):
         elif live and c < 0.40:
             i = rng.choice(live); live.remove(i)
             ops.append("k%d" % i)
+        elif live and c < 0.46:
+            ops.append("q%d" % rng.choice(live))           # JitAllocator::query: a look-up, touches nothing
         else:
             ops.append("j%d" % rng.choice([64, 100, 1000, 4096, 20000, 40000, 65536, 100000, 200000, 300000]))
             live.append(nspans); nspans += 1       # the index exists even when the allocation fails (release is then refused)
@@ -517,6 +535,31 @@ def judge_script(cmd, ans):
         owners = [] if dumps[0] == "-" else dumps[0].split()
         if len(set(owners)) != len(owners) or "-1" in owners:
             bad.append(("ra/slot-owners", "slot owners %s are not distinct work registers" % owners))
+    elif kind == "arena":
+        # independent rules on the real arena: a failed allocation keeps the remaining bytes of the current block (what was handed
+        # out stays valid) and never adds a block; a successful one takes the bytes from the current block or from a block that
+        # is at least as large as the request; regions never overlap (the harness compares the pointers); a hard reset frees all
+        ops = t[3:]
+        prem, pheap = 0, 0
+        for op, tok in zip(ops, toks):
+            if tok.endswith("!overlap"):
+                bad.append(("arena/overlap", "%s returned bytes that overlap an earlier allocation" % op)); tok = tok[:-8]
+            r, rem, heap = map(int, tok.split("/"))
+            if op[0] == "a":
+                n = int(op[1:])
+                if r == 1 and (rem != prem or heap > pheap):
+                    bad.append(("arena/failed-alloc-changed-state", "%s failed but remaining/blocks went %s -> %s" % (op, (prem, pheap), (rem, heap))))
+                if r == 0 and n <= prem and (rem != prem - n or heap != pheap):
+                    bad.append(("arena/bump", "%s fits the current block (%d left) but remaining/blocks went to %s" % (op, prem, (rem, heap))))
+                if r == 0 and n > prem and heap > pheap + 1:
+                    bad.append(("arena/blocks", "%s added %d blocks" % (op, heap - pheap)))
+            elif op == "r1" and (rem, heap) != (0, 0):
+                bad.append(("arena/hard-reset-keeps-memory", "after a hard reset: %d bytes remaining, %d blocks" % (rem, heap)))
+            elif op == "r0" and heap != pheap:
+                bad.append(("arena/soft-reset-changed-blocks", "soft reset: blocks %d -> %d" % (pheap, heap)))
+            prem, pheap = rem, heap
+        if dumps and dumps[0] != "end 0":
+            bad.append(("arena/leak-at-end", "after destroying the arena: %s heap blocks" % dumps[0]))
     elif kind in ("jit", "jitd"):
         # balance rules on the real allocator: a failed alloc changes neither mappings, block records nor the block count; the
         # number of mappings is (1 or 2) x blocks and the number of block records equals the number of blocks
